@@ -221,14 +221,38 @@ def export_case(rec, rng, cid, scratch):
         save_hdf5(h5, idnt, rate, "u", "c")
         curves.append((int(en), rate, idnt))
     rm = RateManager(h5)
+    if rng.random() < .6:
+        # a manager that has been used before, then the container changes
+        # on disk (curve re-rated, further curve added): the export must
+        # reflect the container as it is now
+        len(rm.ratings)
+        rm.get_rates(which="user")
+        en0, rate0, idnt0 = curves[0]
+        newrate = (rate0 + int(rng.integers(1, 10))) % 11
+        save_hdf5(h5, idnt0, newrate, "u", "re-rated")
+        curves[0] = (en0, newrate, idnt0)
+        f2 = scratch / ("exp_meas2_%d_%d.h5" % (cid[0], cid[1]))
+        c16.make_file(rng, f2, 1)
+        idnt2, _, _ = c16.fitted_curve(rng, f2, 0, 0)
+        rate2 = int(rng.integers(0, 11))
+        save_hdf5(h5, idnt2, rate2, "u", "added later")
+        rec.event("exports by a manager used before the container changed")
+        extra = (idnt2, rate2)
+    else:
+        extra = None
     out = scratch / ("exp_ts_%d_%d" % (cid[0], cid[1]))
     rm.export_training_set(out)
+    rm = RateManager(h5)          # container order as it is on disk now
     X, y, names = IR.load_training_set(out, which_type="all",
                                        replace_inf=False,
                                        impute_zero_rated_nan=False,
                                        remove_nan=False, ret_names=True)
-    order = [r["enum"] for r in rm.ratings]
-    by_enum = {e: (r_, i_) for e, r_, i_ in curves}
+    order = [(pathlib.Path(str(r["data_set"].path)).name.split("_", 1)[-1],
+              r["enum"]) for r in rm.ratings]
+    by_enum = {(f.name, e): (r_, i_) for e, r_, i_ in curves}
+    if extra is not None:
+        by_enum[(f2.name, 0)] = (extra[1], extra[0])
+        ncur += 1
     case = {"id": cid, "kind": "export", "order": order}
     rec.check(X.shape == (ncur, len(names)) and
               list(names) == IF.get_feature_names(), "export/shape",
@@ -247,11 +271,11 @@ def export_case(rec, rng, cid, scratch):
         rec.evaluated(dg=("export", cid, en))
         rec.check(np.array_equal(X[row], want, equal_nan=True),
                   "export/features-differ",
-                  lambda: "exported features of enum %d: %s, expected %s"
+                  lambda: "exported features of curve %s: %s, expected %s"
                   % (en, X[row].tolist(), want.tolist()), case)
         rec.check(float(np.atleast_1d(y)[row]) == float(rate),
                   "export/rating-differs",
-                  "exported rating %r for enum %d, user rating %r"
+                  "exported rating %r for curve %s, user rating %r"
                   % (np.atleast_1d(y)[row], en, rate), case)
 
 
